@@ -19,7 +19,7 @@ func TestC09Histories(t *testing.T) {
 	rec := evid.New(t, "C09", "state-machine histories of 20..700 operations on a message writer (streamwriter.Writer or the deprecated frame.Writer.WriteMessage): decoded messages, raw messages with an in-dialect id, and refused writes (nil, id outside the dialect, id>255 on v1) interleaved; the output is parsed by the reference: i-th emitted frame has seq i mod 256, configured ids, version marker, flags, reference checksum, v1 payload = base size; refused writes emit nothing and consume no sequence number; non-trivial = more than 256 emitted frames with >=2 message kinds, or a refused write between two accepted ones; distinct by hash of the emitted stream")
 	rec.Require("wraps-256", "refused-between-accepted", "v1", "v2", "signed", "streamwriter", "framewriter", "raw-in-dialect")
 	dpool := pool(t)
-	evid.Check(t, rec, evid.N(500, 4000), func(t *rapid.T) {
+	evid.Check(t, rec, evid.N(2500, 8000), func(t *rapid.T) {
 		di := dpool[rapid.SampledFrom([]int{0, 0, 1}).Draw(t, "dialect")]
 		v2 := rapid.Bool().Draw(t, "v2")
 		sys := byte(rapid.IntRange(1, 255).Draw(t, "sys"))
